@@ -91,6 +91,10 @@ def _resolve_opts(o):
     if o.get("startdir") == FILEWORLD:
         o = dict(o)
         o["startdir"] = fileworld()
+    elif o.get("startdir") == FILEWORLD + "~":
+        o = dict(o)
+        fileworld()
+        o["startdir"] = "~/fw"          # the file world lives directly under the (private) home directory
     return o
 
 
@@ -370,7 +374,7 @@ def _validate(spec, v, env):
             return s
         startdir = o.get("startdir")
         if not os.path.isabs(s) and startdir:
-            s = os.path.abspath(os.path.join(startdir, s))
+            s = os.path.abspath(os.path.expanduser(os.path.join(startdir, s)))
         ex = o.get("exists")
         there = os.path.exists(s)
         if ex is True and not there:
